@@ -133,3 +133,23 @@ theorem bestStep_attains (m : Bool) (h : List Obs) (s : Int) (hs : bestStep m h 
 end Metrics
 #print axioms Metrics.nanBest_spec
 #print axioms Metrics.bestStep_attains
+
+namespace Metrics
+
+theorem add_nan_left (b : FV) : FV.add .nan b = .nan := by cases b <;> rfl
+theorem add_nan_right (a : FV) : FV.add a .nan = .nan := by cases a <;> rfl
+
+/-- one NaN among the executions reported at a step makes the sum, hence the mean, of that step NaN (numpy's `mean`, not `nanmean`) -/
+theorem sum_nan_of_mem (l : List FV) (h : FV.nan ∈ l) : sum l = .nan := by
+  induction l with
+  | nil => cases h
+  | cons x xs ih =>
+    simp only [sum]
+    rcases List.mem_cons.mp h with hx | hx
+    · rw [← hx]; exact add_nan_left _
+    · rw [ih hx]; exact add_nan_right _
+
+theorem mean_nan_of_mem (l : List FV) (h : FV.nan ∈ l) : mean l = .nan := by
+  simp [mean, sum_nan_of_mem l h]
+
+end Metrics
